@@ -2607,7 +2607,6 @@ class Convex:
             elif self.xtype == 'T':
                 expo = self.params[0] / self.params[1]
                 output = self.multiplier*self.sign*(value_in ** expo) + value_out
-                output += value_out
             else:
                 raise ValueError('Unsupported convex/concave expression.')
 
